@@ -328,6 +328,9 @@ func encryptsFreshMemory(p *Program, r *Reporter) {
 		r.Broken("no EncryptFragment call found")
 	}
 	// the per-representation encryption parameters built at load time (key, IV, protection data) are read-only while serving
+	if cs := p.mustFunc(r, pkgApp, "chunkSegment"); cs != nil {
+		appendSiblingsRule(p, r, cs, "app.chunk")
+	}
 	r.Rule("E2-ENCPARAMS-RO", "key, IV and protection data of a representation are never written by request-serving code", 0)
 	reads, writes := 0, 0
 	seen := map[string]bool{}
